@@ -489,7 +489,12 @@ pub fn build<C: Coll>(spec: &Spec) -> C {
     let bh = PlanBH::new(spec.plan, spec.salt);
     let space = C::id_space();
     // leave one id of the space unused (an absent key must exist), except for one-value types such as the ZST
-    let lim = |n: u32| if space <= 1 { n.min(1) } else { n.min(space - 1).max(1) };
+    // the Miri lane is ~10^4 times slower: recipe sizes are scaled down there (table classes stay reachable: < / = / > one group)
+    let slow = crate::util::slow_lane();
+    let lim = |n: u32| {
+        let n = if slow { (n / 4).max(3) } else { n };
+        if space <= 1 { n.min(1) } else { n.min(space - 1).max(1) }
+    };
     let mut gen: u16 = 100;
     let mut g = || {
         gen = gen.wrapping_add(1);
